@@ -127,12 +127,18 @@ EdgeHandle TopologyKernel::add_edge(VertexHandle _fromVertex,
 
             assert((size_t)_fromVertex.idx() < outgoing_hes_per_vertex_.size());
             std::vector<HalfEdgeHandle>& ohes = outgoing_hes_per_vertex_[_fromVertex];
+            // Several edges may join the two vertices (allowDuplicates); return the one with the
+            // smallest index, as the search without bottom-up incidences below does, so that the
+            // result does not depend on the order of the incidence list.
+            EdgeHandle found = InvalidEdgeHandle;
             for(std::vector<HalfEdgeHandle>::const_iterator he_it = ohes.begin(),
                     he_end = ohes.end(); he_it != he_end; ++he_it) {
                 if(halfedge(*he_it).to_vertex() == _toVertex) {
-                    return edge_handle(*he_it);
+                    const EdgeHandle eh = edge_handle(*he_it);
+                    if(!found.is_valid() || eh.idx() < found.idx()) found = eh;
                 }
             }
+            if(found.is_valid()) return found;
         } else {
             for(int i = 0; i < (int)edges_.size(); ++i) {
                 if(is_deleted(EdgeHandle(i))) continue;
